@@ -417,6 +417,17 @@ def run(ctx, idx):
             if ok is None:
                 raise AnalysisError("C10.c: %s" % why)
         ctx.ob("C10.c", "%s::%s::converts" % (rel, r.name), rel, r.node.lineno, ok, why)
+    # a number token is refused only when Python's own conversion refuses it: a SyntaxError raised in t_INT / t_FLOAT sits in the
+    # handler of the conversion call - a test computed beside it (a length against a limit) can disagree with int() / float()
+    ctx.rule("C10.n", "Numbers are refused only where int() / float() refuse them: every raise in the INT / FLOAT token functions is inside the except handler of the conversion call (a hand-made length test counts the sign, or reads a limit that is 0 when it is switched off, and rejects literals Python converts).")
+    for r_ in (ri, rf):
+        if not isinstance(r_.node, ast.FunctionDef):
+            continue
+        in_handler = {id(x) for t_ in ast.walk(r_.node) if isinstance(t_, ast.Try) and any(isinstance(c_, ast.Call) and K.src(c_.func) in ("int", "float") for b_ in t_.body for c_ in ast.walk(b_))
+                      for h_ in t_.handlers for x in ast.walk(h_)}
+        loose = [x for x in ast.walk(r_.node) if isinstance(x, ast.Raise) and id(x) not in in_handler]
+        ctx.ob("C10.n", "%s::%s::refused-only-by-the-conversion" % (rel, r_.name), rel, loose[0].lineno if loose else r_.node.lineno, not loose, "no raise outside the handler of the conversion" if not loose else
+               "`%s` refuses a number on a test of its own, outside the handler of the conversion: where that test and %s() disagree (a sign counted as a digit, a digit limit that is switched off and reads 0) a literal Python converts is a syntax error" % (K.src(loose[0])[:60], "int" if r_ is ri else "float"))
     # ------------------------------------------------------------------ d
     # nonterminals that stand for punctuation only (`optional_comma : COMMA | empty`, `empty :`): every production is made of
     # punctuation tokens and such nonterminals, and no action gives them a value - nothing to thread
@@ -627,6 +638,17 @@ def run(ctx, idx):
         raise AnalysisError("STRING rule vanished")
     t = rs.node.args.args[-1].arg
     body = K.src(rs.node)
+    # the STRING token is one quoted string: it ends at the first unescaped occurrence of ITS OWN opening quote (inclusion in the
+    # language of such strings), and every single-line quoted string with escapes is a token (inclusion the other way)
+    ctx.rule("C10.m", "A quoted string is one token and ends at its own closing quote: L(STRING) is included in `q (non-q non-backslash | backslash any)* q` for each quote q, and includes every single-line string of that form. A pattern whose escape branch reads the wrong quote class lets the token run on to a later quote (two arguments become one value).")
+    Q_SAFE = r'"([^"\\]|\\[\s\S])*"|\'([^\'\\]|\\[\s\S])*\''
+    Q_MIN = r'"([^"\\\r\n]|\\[^\r\n])*"|\'([^\'\\\r\n]|\\[^\r\n])*\''
+    w_ = RL.not_included(dfas[rs.name], RL.dfa(Q_SAFE))
+    ctx.ob("C10.m", "%s::t_STRING::ends-at-its-closing-quote" % rel, rel, rs.node.lineno, w_ is None, "every STRING token is a single quoted string" if w_ is None else
+           "the STRING pattern matches %r as ONE token: it runs past the closing quote of the string it started in, so what follows (another argument, another command) becomes part of the value - and the same text with the other kind of quote parses differently" % w_)
+    w_ = RL.not_included(RL.dfa(Q_MIN), dfas[rs.name])
+    ctx.ob("C10.m", "%s::t_STRING::every-quoted-string-is-a-token" % rel, rel, rs.node.lineno, w_ is None, "every single-line quoted string (escapes included) is a STRING token" if w_ is None else
+           "the quoted string %r is not a STRING token: a well-formed value is rejected (or lexed as something else)" % w_)
     con = "%s::t_STRING::quote-removal" % rel
     strip = [n for n in ast.walk(rs.node) if isinstance(n, ast.Call) and isinstance(n.func, ast.Attribute) and (n.func.attr in ("strip", "lstrip", "rstrip") or (n.func.attr == "replace" and len(n.args) == 2 and isinstance(n.args[0], ast.Constant) and n.args[0].value in ('"', "'") and isinstance(n.args[1], ast.Constant) and n.args[1].value == ""))]
     sl = [n for n in ast.walk(rs.node) if isinstance(n, ast.Subscript) and isinstance(n.slice, ast.Slice) and K.src(n.slice) == "1:-1"]
